@@ -234,6 +234,11 @@ Theorem no_lock_left_held :
 Proof. exact (@SkelGen.every_path_well_locked). Qed.
 Print Assumptions no_lock_left_held.
 
+Theorem lock_order :
+  lock_order_ok all_skeletons = true.
+Proof. exact (@SkelGen.skeletons_lock_order). Qed.
+Print Assumptions lock_order.
+
 
 (* Non-vacuity (proofs/AssemblyExamples.v): the chain dns, range (2 addresses), router is valid,
    and a history of an unparseable datagram, a BOOTREQUEST of type OFFER, three new clients (the
